@@ -346,6 +346,7 @@ def build_rank(desc: dict[str, Any], rank: int) -> Any:
     )
     node: dict[int, Any] = {}
     send_objs: dict[int, Any] = {}
+    byid_all = {it["id"]: it for it in desc["items"]}
     order = [it for it in desc["items"] if it["rank"] == rank]
     # receives have no operands: build them first so that fault-injected "back edges"
     # (a payload that uses a later receive) can be expressed
@@ -371,7 +372,11 @@ def build_rank(desc: dict[str, Any], rank: int) -> Any:
                 r = r.tagged(pt.tags.ImplStored())
             node[it["id"]] = r
         elif k == "send":
-            if it.get("same_send_as") in send_objs:
+            twin = byid_all.get(it.get("same_send_as"))
+            if it.get("same_send_as") in send_objs and twin is not None and all(
+                    twin.get(f) == it.get(f) for f in ("dest", "tag", "data")):
+                # (only while the two items still describe the same message: a second
+                # fault may have redirected or retagged one of them)
                 # the SAME DistributedSend object stapled a second time
                 node[it["id"]] = make_distributed_send_ref_holder(
                     send_objs[it["same_send_as"]], node[it["stapled"]])
